@@ -1186,6 +1186,10 @@ func (w *world) session(sim *simrt.Sim, first bool) {
 	})
 	swg.Wait()
 	wd.Stop()
+	if n := simrt.InFlight(); n > 0 {
+		// the command returned: the process exits now, whatever is still being handled is cut off
+		w.viol("term.request-abandoned", "serve returned with requests in flight", fmt.Sprintf("the serve command returned while %d request(s) were still being handled: the process exits and cuts them off (an upload leaves its file behind)", n))
+	}
 	if serveErr != nil {
 		w.viol("term.exit", "error", fmt.Sprintf("the serve command returned an error after the signal: %v", serveErr))
 	}
